@@ -177,17 +177,19 @@ func (w *World) StartLoop() {
 			frame, err := w.S.Parse(buf[:n])
 			if err != nil {
 				w.ParseErrs++
-				w.scribble(buf)
+				w.apiUserReuseBuffer(buf)
 				continue
 			}
 			w.dispatch(frame)
 			w.S.Notify(frame)
-			w.scribble(buf)
+			w.apiUserReuseBuffer(buf)
 		}
 	})
 }
 
-func (w *World) scribble(buf []byte) {
+// apiUserReuseBuffer is what a real read loop's next ReadFrom does to its buffer (a race report
+// against this write is the library's: it kept a reference into the caller's packet buffer).
+func (w *World) apiUserReuseBuffer(buf []byte) {
 	if !w.Scribble {
 		return
 	}
